@@ -299,6 +299,65 @@ Definition sync_and_flush (enc : cache -> string) (dec : string -> option cache)
              then try_remove_oldest cfg now (perform_cleanup cfg now merged) else merged in
   ([], Some (enc out)).
 
+(* ---- the store object and its constructors.  The store keeps the cache file's path twice: `cache_path`
+   (copied from the config in `new`, used by write()) and `config.cache_file_path` (used by load / merge). *)
+Record store := { st_cache_path : string; st_cfg_path : string; st_disable : bool; st_mem : cache }.
+Definition files := list (string * cache).          (* path |-> what the file decodes to *)
+
+Fixpoint fs_get (fs : files) (p : string) : option cache :=
+  match fs with [] => None | (q, c) :: t => if String.eqb q p then Some c else fs_get t p end.
+Fixpoint fs_set (fs : files) (p : string) (c : cache) : files :=
+  match fs with
+  | [] => [(p, c)]
+  | (q, c0) :: t => if String.eqb q p then (q, c) :: t else (q, c0) :: fs_set t p c
+  end.
+
+(* BootstrapCacheStore::new(config) *)
+Definition store_new (cfg_path : string) : store :=
+  {| st_cache_path := cfg_path; st_cfg_path := cfg_path; st_disable := false; st_mem := [] |}.
+
+(* PeersArgs as far as the constructor reads them; pa_dir: the cache file inside bootstrap_cache_dir *)
+Record peers_args := { pa_first : bool; pa_local : bool; pa_dir : option string }.
+
+(* BootstrapCacheStore::new_from_peers_args(peers_args, config): the directory override is applied to the
+   config BEFORE the store is constructed; `first` writes an empty cache; `local` disables writing *)
+Definition store_from_peers_args (default_path : string) (config_path : option string) (pa : peers_args)
+           (fs : files) : store * files :=
+  let p0 := match config_path with Some p => p | None => default_path end in
+  let p := match pa_dir pa with Some d => d | None => p0 end in
+  let st := store_new p in
+  let fs' := if pa_first pa then fs_set fs (st_cache_path st) [] else fs in
+  ({| st_cache_path := st_cache_path st; st_cfg_path := st_cfg_path st; st_disable := pa_local pa; st_mem := [] |}, fs').
+
+(* NOT the code: the override applied to the store's config after construction -- kept only for
+   `late_override_refuted`: write() keeps using the path copied earlier *)
+Definition store_from_peers_args_late (default_path : string) (config_path : option string) (pa : peers_args)
+           (fs : files) : store * files :=
+  let p0 := match config_path with Some p => p | None => default_path end in
+  let st := store_new p0 in
+  let cfgp := match pa_dir pa with Some d => d | None => p0 end in
+  let fs' := if pa_first pa then fs_set fs (st_cache_path st) [] else fs in
+  ({| st_cache_path := st_cache_path st; st_cfg_path := cfgp; st_disable := pa_local pa; st_mem := [] |}, fs').
+
+Definition store_add (cfg : config) (now : N) (st : store) (raw : addr) : store :=
+  {| st_cache_path := st_cache_path st; st_cfg_path := st_cfg_path st; st_disable := st_disable st;
+     st_mem := add_addr cfg now (st_mem st) raw |}.
+
+(* sync_and_flush_to_disk(true) on the store: reads config.cache_file_path, writes cache_path *)
+Definition store_flush (cfg : config) (now : N) (st : store) (fs : files) : store * files :=
+  if st_disable st then (st, fs) else
+  let merged := match fs_get fs (st_cfg_path st) with
+                | Some d => cache_sync (st_mem st) (perform_cleanup cfg now d)
+                | None => st_mem st
+                end in
+  let out := try_remove_oldest cfg now (perform_cleanup cfg now merged) in
+  ({| st_cache_path := st_cache_path st; st_cfg_path := st_cfg_path st; st_disable := st_disable st; st_mem := [] |},
+   fs_set fs (st_cache_path st) out).
+
+(* load_cache_data(store.config()) *)
+Definition store_load (cfg : config) (now : N) (st : store) (fs : files) : option cache :=
+  match fs_get fs (st_cfg_path st) with Some d => Some (perform_cleanup cfg now d) | None => None end.
+
 (* ---- the file system step semantics used for `atomic_replace`:
    a writer streams its text into a private temporary file and then renames it over the target;
    rename replaces the target in one step (the stated premise: POSIX rename atomicity, distinct
@@ -482,4 +541,35 @@ Fixpoint agree_strace (cfg : config) (tol : N) (mem : cache) (file : fstate)
       sstep_ok cfg tol mem file t o &&
       agree_strace cfg tol (o_mem o)
         (match snd t with SSetFile f => f | SFlush _ => o_file o | _ => file end) rest
+  end.
+
+(* ---- constructors: which path the store reports, which files the construction and the flush changed, which
+   peers a store constructed the same way loads back.  ctor_new: BootstrapCacheStore::new, otherwise
+   new_from_peers_args.  Paths are the labels "config" / "custom" / "default". *)
+Definition sorted_keys_eqb (a b : list string) : bool :=
+  (len a =? len b) && forallb (fun k => existsb (String.eqb k) b) a && forallb (fun k => existsb (String.eqb k) a) b.
+
+Definition agree_ctor (cfg : config) (now : N) (ctor_new : bool) (config_path : option string) (pa : peers_args)
+           (fs0 : files) (adds : list addr)
+           (impl_path : string) (impl_disabled : bool) (changed_build changed_flush : list string)
+           (impl_reload : option (list string)) : bool :=
+  let built := if ctor_new
+               then (store_new (match config_path with Some p => p | None => "default"%string end), fs0)
+               else store_from_peers_args "default" config_path pa fs0 in
+  let st := fst built in
+  let fs1 := snd built in
+  let st1 := fold_left (store_add cfg now) adds st in
+  let flushed := store_flush cfg now st1 fs1 in
+  let fs2 := snd flushed in
+  (* the second, identically constructed store *)
+  let rebuilt := if ctor_new then (st, fs2)
+                 else store_from_peers_args "default" config_path
+                        {| pa_first := false; pa_local := pa_local pa; pa_dir := pa_dir pa |} fs2 in
+  String.eqb (st_cfg_path st) impl_path && Bool.eqb (st_disable st) impl_disabled &&
+  sorted_keys_eqb (if (negb ctor_new) && pa_first pa then [st_cache_path st] else []) changed_build &&
+  sorted_keys_eqb (if st_disable st then [] else [st_cache_path st]) changed_flush &&
+  match store_load cfg now (fst rebuilt) (snd rebuilt), impl_reload with
+  | Some c, Some ks => sorted_keys_eqb (map fst c) ks
+  | None, None => true
+  | _, _ => false
   end.
